@@ -43,6 +43,21 @@ Definition run_k8 (args : list sx) : sx :=
   | _ => bad
   end.
 
+(* K8b: (9 mode conn b (w...) ((row of operand bounds) ...) lower) with dual parameters -> (value tangent) of the bound a
+   connective formula (mode 0, first row) or a Forall (1) / Exists (2) over it stores after upward() *)
+Definition run_k9 (args : list sx) : sx :=
+  match args with
+  | [mode; c; b; ws; rows; lower] =>
+      let rows := dlist (dlist dbnd) rows in
+      let r := match dz mode with
+               | 0 => body_bound_d (dconn c) (ddual b) (dlist ddual ws) (dbool lower) (hd [] rows)
+               | 1 => quant_bound_d true (dconn c) (ddual b) (dlist ddual ws) (dbool lower) rows
+               | _ => quant_bound_d false (dconn c) (ddual b) (dlist ddual ws) (dbool lower) rows
+               end in
+      L [eq_ (dv r); eq_ (dt r)]
+  | _ => bad
+  end.
+
 (* K30: (30 kb (roots-of-call ...)) -> per add_knowledge call: num_formulae, formula_number of every
    object (-1 = none), Model.nodes as key -> object for key < num_formulae, len(Model.nodes), and how
    often each object's parameters occur in Model.parameters() *)
@@ -70,6 +85,7 @@ Definition run_base (tag : Z) (args : list sx) : option sx :=
   | 3 => Some (run_k3 args)
   | 4 => Some (run_k4 args)
   | 8 => Some (run_k8 args)
+  | 9 => Some (run_k9 args)
   | 30 => Some (run_k30 args)
   | 40 => Some (run_k40 args)
   | 41 => Some (run_k41 args)
